@@ -236,8 +236,11 @@ fn hash_fn(
                     get_localised_id(true_block.block, localised_block_id).hash(state);
                     get_localised_id(false_block.block, localised_block_id).hash(state);
                 }
-                crate::InstOp::ContractCall { name, .. } => {
+                crate::InstOp::ContractCall {
+                    name, return_type, ..
+                } => {
                     name.hash(state);
+                    return_type.hash(state);
                 }
                 crate::InstOp::FuelVm(fuel_vm_inst) => {
                     std::mem::discriminant(fuel_vm_inst).hash(state);
